@@ -15,6 +15,7 @@ INVARIANT InvC14
 INVARIANT InvC15
 INVARIANT InvC09
 INVARIANT InvC17
+INVARIANT InvEncEid
 INVARIANT ConfigImmutable
 PROPERTY OnlyAssignChanges
 PROPERTY BadPecChangesNothing
